@@ -361,6 +361,7 @@ def run(prog, ctx):
 
     # ------------------------------------------------------------------ D7
     check_coarsening_siblings(prog, ctx)
+    check_forward_test_uses_given_coarsening(prog, ctx)
 
     # ------------------------------------------------------------------ D6
     gp = prog.func(ES + ".get_points_in_areas_recursive")
@@ -550,3 +551,39 @@ def _update_sources_nonneg(prog, ctx, ro):
                         continue
                     bad.append("%s calls %s" % (fi.qual, src(x)[:60]))
     return (not bad), "; ".join(bad)
+
+
+def check_forward_test_uses_given_coarsening(prog, ctx):
+    """C07.D7: in the counted coarsening loops of coarsen_grid (`while <counter> > 0`, the counter is decremented for every level that
+    is taken away) the test "coarsening this far creates no forward problem" compares the bound built from self.lmax with the
+    coarsening value the AREA carries -- the value the loop started from -- not with the running counter: after the first round the
+    counter has shrunk and the same area would be judged against a different threshold in every round."""
+    cg = prog.func(ES + ".coarsen_grid")
+    ctx.touch(cg)
+    tm = Terms(cg.node, max_depth=0)
+    n = 0
+    for loop in [x for x in walk_local(cg.node) if isinstance(x, ast.While)]:
+        t = loop.test
+        if not (isinstance(t, ast.Compare) and len(t.ops) == 1 and isinstance(t.ops[0], ast.Gt) and isinstance(t.left, ast.Name)
+                and isinstance(t.comparators[0], ast.Constant) and t.comparators[0].value == 0):
+            continue
+        counter = t.left.id
+        inside = [x for st in loop.body for x in ast.walk(st)]
+        if not any(isinstance(x, ast.AugAssign) and isinstance(x.op, ast.Sub) and isinstance(x.target, ast.Name) and x.target.id == counter for x in inside):
+            continue
+        for cmp_ in [x for x in inside if isinstance(x, ast.Compare) and len(x.ops) == 1 and isinstance(x.ops[0], (ast.GtE, ast.Gt, ast.LtE, ast.Lt))]:
+            sides = [cmp_.left, cmp_.comparators[0]]
+            bound = [e for e in sides if any(isinstance(y, ast.Attribute) and y.attr == "lmax" for y in ast.walk(e))]
+            if len(bound) != 1:
+                continue
+            other = sides[1] if bound[0] is sides[0] else sides[0]
+            n += 1
+            names = {y.id for y in ast.walk(other) if isinstance(y, ast.Name)}
+            assigned_in_loop = {y.target.id for y in inside if isinstance(y, ast.AugAssign) and isinstance(y.target, ast.Name)} | \
+                               {z.id for y in inside if isinstance(y, ast.Assign) for tg in y.targets for z in ast.walk(tg) if isinstance(z, ast.Name)}
+            variant = sorted(names & assigned_in_loop)
+            ctx.check(not variant, "C07.D7", R.key_of(cg, "forward-test-uses-given-coarsening#%d" % n), cg.loc(cmp_),
+                      "the forward-problem test compares the lmax bound with a value that does not change during the coarsening rounds",
+                      "`%s`: the forward-problem test compares the lmax bound with `%s`, which the loop changes in every round (it is the running "
+                      "counter of levels still to take away), instead of the coarsening value the area was given" % (src(cmp_)[:90], ", ".join(variant)))
+    ctx.floor("C07.D7.forward", n, 1, "forward-problem tests in the counted coarsening loops")
